@@ -366,3 +366,96 @@ Proof.
   - destruct P as (A & B & D). assert (lt' = lt) by congruence. subst lt'.
     destruct Hsr as [[-> _]|Hsr]; [|tauto]. repeat split; auto. rewrite fupd_eq. auto.
 Qed.
+
+Lemma rtask_not_call s lt : calls_ok s -> kindof s lt = KLoop -> ~ In lt (calls s).
+Proof. intros C K Hin. destruct (call_kind s lt C Hin) as [X _]. contradiction. Qed.
+
+Lemma Inv_loop_update pend pend' s s' lt k' :
+  Inv pend s -> rtask s = Some lt ->
+  calls s' = calls s -> rtask s' = rtask s -> ntasks s' = ntasks s -> svcs s' = svcs s -> g_inflight s' = g_inflight s ->
+  tasks s' = fupd (tasks s) lt k' -> t_kind k' = KLoop -> pc_ok k' -> t_pc k' <> PStart ->
+  (forall h, In h (t_waiters k') -> exists u, h = HStep u) ->
+  ((donep s lt \/ doomed s lt) -> (is_done k' = true \/ doomed s' lt)) ->
+  (subs s' = subs s /\ routed s' = routed s \/ ~ (donep s lt \/ doomed s lt)) ->
+  (forall c, nchild pend' c = nchild pend c) ->
+  (* requests *)
+  nreqs s <= nreqs s' -> (forall r, r < nreqs s -> reqs s' r = reqs s r) ->
+  (forall r, r < nreqs s -> q_state (reqs s r) = QPending -> q_task (reqs s r) <> lt) ->
+  (forall r, nreqs s <= r < nreqs s' ->
+             q_task (reqs s' r) = lt /\ awaits (t_pc k') r /\ svc_interesting (svcs s) (q_svc (reqs s' r)) = true) ->
+  (forall r, awaits (t_pc k') r -> r < nreqs s') ->
+  (* routing *)
+  NoDup (dkeys (subs s')) -> NoDup (dkeys (routed s')) -> incl (dkeys (subs s')) (dkeys (routed s')) ->
+  (forall x v, In (x, v) (routed s') -> svc_interesting (svcs s) v = true) ->
+  pass_ok s' lt ->
+  (g_inflight s = false ->
+   (forall x, In x (dkeys (routed s')) -> In x (dkeys (subs s')) \/ inflight s' x \/ unsub_pending s x) /\
+   (forall p r, t_pc k' = PPass p StRenew r -> ~ doomed s' lt)) ->
+  Inv pend' s'.
+Proof.
+  intros H Hrt Ec Er En Es Eg Et Kk Kpc Knot Kw Kdd Ksr Kch Rle Rold Rown Rnew Rb Ns Nr Ninc Nsvc Kpass Kroute.
+  destruct H as [Icalls Ipc Idoom Icensus Irtask Ireq Ireqb Isid Isvc Ipass Iroute Iphase Iwait Icount].
+  destruct (Irtask lt Hrt) as [Hlt Hkl].
+  assert (Hnc : ~ In lt (calls s)) by (apply rtask_not_call; assumption).
+  assert (Told : forall t, t <> lt -> tasks s' t = tasks s t) by (intros t Ht; rewrite Et; apply fupd_neq; congruence).
+  assert (Tnew : tasks s' lt = k') by (rewrite Et; apply fupd_eq).
+  assert (Kind : forall t, kindof s' t = kindof s t).
+  { intros t. destruct (Nat.eq_dec t lt) as [->|Hne]; [rewrite Tnew; congruence|now rewrite Told]. }
+  assert (Hcur : cur s' = cur s) by (unfold cur; now rewrite Ec).
+  assert (Dold : forall t, t < ntasks s -> t <> lt -> (doomed s' t <-> doomed s t)).
+  { intros t Ht Hne. unfold doomed. rewrite (Told t Hne).
+    destruct (pcof s t) as [| ? ? ? r|? ? r|? []| | |r|] eqn:Epc; try tauto;
+      (rewrite Rold; [tauto|]; eapply Ireqb; [exact Ht|]; rewrite Epc; reflexivity). }
+  constructor.
+  - (* calls *) unfold calls_ok in *. rewrite Ec, En. destruct (calls s) as [|c0 us] eqn:Ecalls.
+    + rewrite Irtask_none. all: exfalso; destruct Icalls as (_ & _ & _ & _ & X); congruence.
+    + destruct Icalls as (K0 & Kus & Klt & Kdone & Knd). rewrite Kind. split; [exact K0|].
+      split; [intros u Hu; rewrite Kind; now apply Kus|]. split; [exact Klt|]. split; [|exact Knd].
+      intros t Ht Hne. rewrite Hcur in Hne. rewrite Told; [now apply Kdone|]. intros ->. contradiction.
+  - (* pc *) intros t Ht. rewrite En in Ht. destruct (Nat.eq_dec t lt) as [->|Hne]; [now rewrite Tnew|]. rewrite Told by assumption. now apply Ipc.
+  - (* doom *) intros t Ht D. rewrite En in Ht. rewrite Kind. destruct (Nat.eq_dec t lt) as [->|Hne]; [exact Hkl|].
+    apply Idoom; [assumption|]. now apply Dold.
+  - (* census *) intros t Ht. rewrite En in Ht. specialize (Icensus t Ht). unfold census in *. rewrite Kind, Ec, Er, Hcur.
+    destruct (kindof s t) eqn:Hk; try exact Icensus.
+    + destruct (Nat.eq_dec t lt) as [->|Hne]; [now left|]. now rewrite Told.
+    + destruct Icensus as [A B]. split; [|exact B].
+      assert (Hp : parent <> lt) by (intros ->; contradiction).
+      assert (Htl : t <> lt) by (intros ->; congruence).
+      rewrite (Told t Htl), (Told parent Hp). exact A.
+  - (* rtask *) intros lt' Hlt'. rewrite Er in Hlt'. rewrite En, Kind. now apply Irtask.
+  - (* req *) intros r Hr Hq. rewrite En. destruct (Nat.lt_ge_cases r (nreqs s)) as [Hlo|Hhi].
+    + rewrite Rold in * by assumption. destruct (Ireq r Hlo Hq) as [A B]. split; [exact A|].
+      rewrite Told; [exact B|]. now apply Rown.
+    + destruct (Rnew r (conj Hhi Hr)) as (A & B & _). rewrite A, Tnew. split; [exact Hlt|exact B].
+  - (* reqb *) intros t Ht r Hr. rewrite En in Ht. destruct (Nat.eq_dec t lt) as [->|Hne].
+    + rewrite Tnew in Hr. now apply Rb.
+    + rewrite Told in Hr by assumption. specialize (Ireqb t Ht r Hr). lia.
+  - (* sid *) auto.
+  - (* svc *) rewrite Es. split; [exact Nsvc|]. intros r Hr. destruct (Nat.lt_ge_cases r (nreqs s)) as [Hlo|Hhi].
+    + rewrite Rold by assumption. now apply Isvc.
+    + now destruct (Rnew r (conj Hhi Hr)) as (_ & _ & X).
+  - (* pass *) intros lt' Hlt'. rewrite Er in Hlt'. assert (lt' = lt) by congruence. subst. exact Kpass.
+  - (* route *) intros G. rewrite Eg in G. destruct (Kroute G) as [R1 R2]. split.
+    + intros x Hx. destruct (R1 x Hx) as [A|[A|A]]; [now left|right; now left|right; right].
+      unfold unsub_pending in *. rewrite Hcur, En.
+      assert (Hcl : cur s <> lt).
+      { intros E. apply Hnc. rewrite <- E. apply cur_in. intros Z. unfold calls_ok in Icalls. rewrite Z in Icalls.
+        destruct Icalls as (_ & _ & _ & _ & Y). congruence. }
+      rewrite (Told _ Hcl). destruct A as [A|(t & A1 & A2 & A3)]; [now left|right].
+      exists t. assert (t <> lt) by (intros ->; congruence). rewrite Told by assumption. auto.
+    + intros lt' p r Hlt' Hpc. rewrite Er in Hlt'. assert (lt' = lt) by congruence. subst. rewrite Tnew in Hpc. eapply R2; eauto.
+  - (* phase *) eapply phase_loop_step with (lt := lt) (k' := k'); eauto.
+  - (* wait *) intros t Ht h Hh. rewrite En in Ht. destruct (Nat.eq_dec t lt) as [->|Hne].
+    + rewrite Tnew in Hh. now apply Kw.
+    + rewrite Told in Hh by assumption. eapply Iwait; eauto.
+  - (* count *) eapply count_ok_ext with (pend := pend); [exact Kch|].
+    destruct Icount as [C1 C2]. split; [intros p Hp; rewrite En; now apply C1|].
+    rewrite Ec, Hcur. intros Hc Hd.
+    assert (Hcl : cur s <> lt) by (intros E; apply Hnc; rewrite <- E; now apply cur_in).
+    rewrite (Told _ Hcl) in *. specialize (C2 Hc Hd).
+    assert (Hkid : forall t c, is_kid c (tasks s' t) = is_kid c (tasks s t)) by (intros t c; unfold is_kid; now rewrite Kind).
+    destruct (pcof s (cur s)); try (destruct C2 as [C2 C3]; split; [intros t Ht; rewrite Hkid; apply C2; lia|exact C3]).
+    rewrite (nlive_ext s' s); [exact C2|exact En|]. intros t Ht. unfold live_kid. rewrite Hkid.
+    destruct (Nat.eq_dec t lt) as [->|Hne]; [|now rewrite Told].
+    unfold is_kid. rewrite Hkl. reflexivity.
+Qed.
